@@ -89,6 +89,7 @@ type printer struct {
 
 	lv    int
 	stack [][]*ast.Redir
+	base  int
 }
 
 func (p *printer) indent() {
@@ -103,7 +104,11 @@ func (p *printer) space() {
 	p.w.WriteByte(' ')
 }
 
+// newline ends a line of commands: the bodies of the here-documents
+// whose operators are on that line follow it, whichever construct the
+// next line belongs to.
 func (p *printer) newline() {
+	p.flush()
 	p.w.WriteByte('\n')
 }
 
@@ -602,13 +607,28 @@ func (p *printer) push() {
 }
 
 func (p *printer) heredoc() {
-	// the frame stays on the stack while the bodies are printed: a body
-	// can hold a command substitution with a here-document of its own
-	top := len(p.stack) - 1
-	for list := p.stack[top]; len(list) != 0; list = p.stack[top] {
-		p.stack[top] = nil
+	p.flush()
+	// pop
+	p.stack = p.stack[:len(p.stack)-1]
+}
+
+// flush prints the bodies of the pending here-documents of all frames
+// of the current line, in the order of their operators.
+func (p *printer) flush() {
+	for {
+		// the frames stay on the stack while the bodies are printed: a
+		// body can hold a command substitution with a here-document of
+		// its own, which is pending only after that
+		var list []*ast.Redir
+		for i := p.base; i < len(p.stack); i++ {
+			list = append(list, p.stack[i]...)
+			p.stack[i] = nil
+		}
+		if len(list) == 0 {
+			break
+		}
 		for _, r := range list {
-			p.newline()
+			p.w.WriteByte('\n')
 			p.word(r.Heredoc)
 			if n := len(r.Heredoc); n != 0 {
 				if w, ok := r.Heredoc[n-1].(*ast.Lit); !ok || w.Value == "" || w.Value[len(w.Value)-1] != '\n' {
@@ -620,8 +640,6 @@ func (p *printer) heredoc() {
 			p.word(r.Delim)
 		}
 	}
-	// pop
-	p.stack = p.stack[:top]
 }
 
 func (p *printer) word(w ast.Word) {
@@ -688,8 +706,13 @@ func (p *printer) cmdSubst(w *ast.CmdSubst) {
 		p.w.WriteByte('`')
 	}
 	if len(w.List) > 1 || w.Left.Line() != w.Right.Line() {
+		// the lines of a command substitution are not where the
+		// here-documents of the command around it are read
+		base := p.base
+		p.base = len(p.stack)
 		p.compoundList(w.List)
 		p.newline()
+		p.base = base
 		p.indent()
 	} else {
 		if w.Dollar && beginsWithParen(w.List[0]) {
@@ -725,7 +748,8 @@ func (p *printer) arithExpr(list bool, left string, x ast.Word) {
 	p.w.WriteString(left)
 	if !list {
 		p.lv++
-		p.newline()
+		// inside a word: not the end of a line of commands
+		p.w.WriteByte('\n')
 		p.indent()
 	}
 	end := x.Pos()
@@ -738,7 +762,7 @@ func (p *printer) arithExpr(list bool, left string, x ast.Word) {
 	}
 	if !list {
 		p.lv--
-		p.newline()
+		p.w.WriteByte('\n')
 		p.indent()
 	}
 	p.w.WriteString("))")
